@@ -117,6 +117,10 @@ func init() {
 			for _, m := range c.Replay["mods"].([]any) {
 				mods = append(mods, m.(string))
 			}
+			if px, _ := c.Replay["proxy"].(bool); px {
+				c16ProxyLayer(c, mods)
+				return
+			}
 			c16CheckOrdered(c, mods, true)
 			return
 		}
@@ -187,6 +191,21 @@ func init() {
 			}
 		}
 		c.Run.Set("lattice_edges_checked", edges)
+
+		// the filtering proxy acts on the option the modifiers define
+		proxyMods := []string{"elemhide", "generichide", "jsinject", "document", "important"}
+		if c.Thorough() {
+			proxyMods = c16Mods
+		}
+		pe, skipped := c16ProxyLayer(c, proxyMods)
+		c.Run.Set("proxy_layer_requests", pe)
+		c.Run.Add("evaluations", pe)
+		if skipped != "" {
+			c.Run.Set("proxy_layer_skipped", skipped)
+			exhaustive = false
+		} else {
+			c.Run.Set("proxy_layer", fmt.Sprintf("real proxy.Server on 127.0.0.1 in front of a local origin: every subset of %v on an exception rule for the origin x 4 client styles (request type known before / only from the response)", proxyMods))
+		}
 
 		// non-exception and absent basic rules
 		for _, text := range []string{"||example.org^", "||example.org^$important", "||example.org^$third-party", "||example.org^$script"} {
